@@ -1,3 +1,4 @@
+import Toodee.Spec.OpsSpec
 import Toodee.Spec.Cells
 import Toodee.Impl.Copy
 import Toodee.Proofs.CopyLemmas
@@ -152,19 +153,6 @@ theorem C14_copy_from_toodee_owned (t : TD α) (h : t.Inv) (sv : VW) (sbuf : Lis
   · intro hd
     rw [if_pos hd]
     rfl
-
-/-- the two rectangles of `copy_within` fit -/
-def rectsFit (C R : Nat) (tl br dest : Nat × Nat) : Prop :=
-  tl.1 ≤ br.1 ∧ tl.2 ≤ br.2 ∧ br.1 ≤ C ∧ br.2 ≤ R ∧ dest.1 + (br.1 - tl.1) ≤ C ∧ dest.2 + (br.2 - tl.2) ≤ R
-
-instance (C R : Nat) (tl br dest : Nat × Nat) : Decidable (rectsFit C R tl br dest) := by
-  unfold rectsFit; infer_instance
-
-/-- what `copy_within` must write: destination cell `(c,r)` gets the *prior* source cell at the same offset -/
-def copyWithinCells (v : VW) (buf : List α) (tl br dest : Nat × Nat) : Nat × Nat → Option α := fun cr =>
-  if dest.1 ≤ cr.1 ∧ cr.1 < dest.1 + (br.1 - tl.1) ∧ dest.2 ≤ cr.2 ∧ cr.2 < dest.2 + (br.2 - tl.2) then
-    buf[v.pos (cr.1 - dest.1 + tl.1) (cr.2 - dest.2 + tl.2)]?
-  else none
 
 /-- `copy_within`: `indexRowMut` is the implementor's `IndexMut<usize>`, which by C02 returns the row window -/
 theorem C14_copy_within (m : Mode) (v : VW) (buf : List α) (h : v.Inv buf.length) (a : Acc) (ha : a.Of v buf.length)
